@@ -1,6 +1,7 @@
 """C15 -- streamed print jobs arrive complete, in order and checksummed."""
 import copy
 import logging
+import json
 import random
 from concurrent.futures import ProcessPoolExecutor
 
@@ -127,7 +128,15 @@ class P(flow.Plan):
         big = tier == "thorough"
         runs.append(("sender-pause-resume", "SenderPauseImpl", pc % (2 if big else 1, 2 if big else 1, "FALSE", "PROPERTY Terminates\n"), None, []))
         runs.append(("sender-pause-F18", "SenderPauseImpl", pc % (1, 1, "TRUE", ""), None, ["NeverDies"]))
+        # beyond the listed properties: the whole job life cycle (startprint / pause / resume / cancelprint / ";@pause" / restart)
+        jc = ("SPECIFICATION Spec\nCONSTANTS\n NLines = 3\n NJobs = 2\n MaxCorrupt = %d\n MaxPauses = %d\n MaxCancels = 1\n NRestore = %d\n"
+              " HostPauseAt = {%s}\n PauseClearsSentlines = %s\nCHECK_DEADLOCK FALSE\n"
+              "INVARIANT CompleteModuloFindings\nINVARIANT InOrder\nINVARIANT JobsInOrder\nINVARIANT RestoreDelivered\nINVARIANT NeverDies\n%s")
+        live = "PROPERTY CancelStops\nPROPERTY Terminates\n"
+        runs.append(("jobs-lifecycle", "SenderJobsImpl", jc % (1, 1, 2, "2", "FALSE", live), None, []))
+        runs.append(("jobs-lifecycle-F18", "SenderJobsImpl", jc % (1, 1, 1, "2", "TRUE", ""), None, ["NeverDies"]))
         if tier == "thorough":
+            runs.append(("jobs-lifecycle-2x2", "SenderJobsImpl", jc % (2, 2, 1, "1, 3", "FALSE", live), None, []))
             runs.append(("sender-4x3", "SenderImpl", cfg(4, 3, ["CompleteModuloFindings", "InOrder"]), None, []))
         return runs
 
@@ -163,11 +172,50 @@ class P(flow.Plan):
         a2, t2, _ = impl_conformance([bad])
         if t2 == 1 and a2 == 1:
             raise flow.MachineryError("SenderImplTrace accepted a trace with a corrupted line number")
-        return {"impl_level_traces_accepted_by_SenderImpl": acc, "impl_level_traces_checked": tot,
-                "impl_level_corrupted_trace_rejected": t2 == 1 and a2 == 0,
-                "drift_count": tot - acc, "drift_notes": [{"trace": i, "schedule": inputs[i]} for i in rej[:3]]}
+        out = {"impl_level_traces_accepted_by_SenderImpl": acc, "impl_level_traces_checked": tot,
+               "impl_level_corrupted_trace_rejected": t2 == 1 and a2 == 0,
+               "drift_count": tot - acc, "drift_notes": [{"trace": i, "schedule": inputs[i]} for i in rej[:3]]}
+        out.update(self.job_life_cycle())
+        return out
+
+    def job_life_cycle(self):
+        """Beyond C15: executions with cancelprint / restart / ';@pause' validated against SenderJobsImpl."""
+        import copy as _c
+        from . import check_jobs as cj
+        tier, sd = getattr(self, "_tier", "quick"), getattr(self, "_sd", 1)
+        trs, lost = cj.run_scenarios(sd, 96 if tier == "thorough" else 24)
+        acc, tot, rej, inv = cj.validate(trs)
+        # negative controls: two job lines swapped on the wire / one reply removed from the log
+        ctl = []
+        for t in trs:
+            c = _c.deepcopy(t)
+            txs = [e for e in c["ev"] if e["k"] == "tx" and bytes(e["text"]).startswith(b"N") and b"M110" not in bytes(e["text"])]
+            rel = [k for k, e in enumerate(c["ev"]) if e["k"] == "rel"]
+            if len(txs) >= 2 and rel and len(ctl) < 4:
+                if len(ctl) % 2 == 0:
+                    txs[0]["text"], txs[1]["text"] = txs[1]["text"], txs[0]["text"]
+                else:
+                    del c["ev"][rel[len(rel) // 2]]
+                ctl.append(c)
+        ca, ct, _, _ = cj.validate(ctl)
+        if ct and ca:
+            raise flow.MachineryError("SenderJobsImplTrace accepted %d of %d corrupted traces" % (ca, ct))
+        kinds = {}
+        for t in trs:
+            for e in t["ev"]:
+                kinds[e["k"]] = kinds.get(e["k"], 0) + 1
+        if rej:
+            flow.say("NOTE drift (job life cycle): %d of %d executions with cancel/restart are not behaviours of SenderJobsImpl (first: %s)"
+                     % (len(rej), tot, json.dumps(trs[rej[0]]["meta"]["scenario"])[:300]))
+        if inv:
+            flow.say("NOTE job life cycle: a model invariant fails on a state matched to a real execution: %s" % inv[:3])
+        return {"job_life_cycle": {"executions": tot, "accepted_by_SenderJobsImpl": acc, "harness_lost": lost,
+                                   "events": kinds, "corrupted_traces_rejected": "%d of %d" % (ct - ca, ct),
+                                   "invariant_notes": [list(x) for x in inv[:5]],
+                                   "rejected_scenarios": [trs[i]["meta"]["scenario"] for i in rej[:3]]}}
 
     def executions(self, tier, sd):
+        self._tier, self._sd = tier, sd
         n = 300 if tier == "thorough" else 60
         specs, inputs = [], []
         for i in range(n):
